@@ -20,6 +20,7 @@ RULE = (
     "B = sum ceil(remaining/min eligible skill)+1 per task + #tasks + all absence steps + 5 is the sequential "
     "work bound: must end FINISHED_SUCCESS (bounded liveness). (infeasible) the same models with one unfinished "
     'Teams may list a task without the task listing the team; a relay profile has one often-absent worker who must do everything, with helpers on some tasks. '
+    'Every feasible model that succeeds with makespan T is simulated again with max_time=T (must succeed, nothing simulated at or beyond T) and max_time=T-1 (must be reported as a failure with unfinished tasks). '
     "non-automatic task stripped of every eligible worker: must not report SUCCESS. Non-trivial = feasible model "
     "with an SS/FF/SF link whose predecessor was WORKING for at most one step or finished in the same step as "
     "its successor, or an infeasible variant; distinct by spec hash."
@@ -246,6 +247,17 @@ def check(case):
                 if k != S.FS and spec["tasks"][a]["prog"] < 1.0 and (nwork[a] <= 1 or first_fin[a] == first_fin[b]):
                     res.nontrivial = True
             res.cls("has_nonFS", any(k != S.FS for _, _, k in spec["deps"]))
+        if status == 1 and p.time >= 1 and not res.violations:
+            # the boundary: with max_time equal to the makespan T the run still succeeds (nothing is simulated at or
+            # beyond T), with max_time = T - 1 it is reported as a failure with unfinished tasks
+            T = int(p.time)
+            for mt, want in ((T, 1), (T - 1, -1)):
+                hb = S.build(dict(spec, warm=None))
+                S.simulate(hb.project, dict(opts, max_time=mt))
+                fin = all(int(t.state) == S.FINISHED for t in hb.project.workflow.task_list)
+                if int(hb.project.status) != want or fin != (want == 1) or hb.project.time > max(mt, 0):
+                    res.fail("C05.max_time_boundary", "makespan %d: simulate(max_time=%d) gives status %d, all tasks finished: %s, time %d" % (T, mt, int(hb.project.status), fin, hb.project.time), sig="at" if mt == T else "below")
+            res.stats["boundary_runs"] += 2
     elif kind == "infeasible":
         res.nontrivial = True
         if status == 1:
